@@ -124,7 +124,7 @@ fn status_code(s: &anyhow::Result<TrackStatus>) -> u8 {
     }
 }
 
-fn external_track(id: u64) -> (HTrack, TrackDump) {
+pub fn external_track(id: u64) -> (HTrack, TrackDump) {
     disarm();
     let mut t = HTrack::new(id, HMetric::default(), HAttrs { counter: 1, ..Default::default() }, HNotifier);
     let mut m = m_new(id);
